@@ -1277,13 +1277,15 @@ func (s *sim) hasProgress(nd *simNode) bool {
 // one change with Transition=Auto (Simple), 2-3 changes with Auto (EnterJoint, automatic leave), JointImplicit / JointExplicit with 1-3 changes,
 // the empty ConfChangeV2 (LeaveJoint); a quarter of them inside one proposal message with 2-3 conf-change entries.  Never JointExplicit /
 // JointImplicit WITHOUT changes (passes the gate while joint and panics at apply: RSJ.enter_empty_passes_gate_and_is_refused_by_changer, suite
-// joint-through-rawnode); at most one removal / demotion per proposal and only with >= 3 voters (the Changer must not be asked for a zero-voter config).
+// joint-through-rawnode); a proposal removes / demotes voters only as long as two of the proposer's view remain (the Changer must not be asked for a
+// zero-voter config: etcd panics, an application error) - in a five-node cluster up to three voters are replaced at once, so that the two halves of a
+// joint configuration have DIFFERENT quorums (a tally or commit decision that looked at one half only is then wrong).
 func (s *sim) randomV2(nd *simNode) pb.ConfChangeV2 {
 	voters := map[uint64]bool{}
 	for _, v := range nd.conf.Voters {
 		voters[v] = true
 	}
-	shrunk := false
+	shrunk, maxShrink := 0, len(voters)-2 // voters removed / demoted by this proposal: at least two remain (in the proposer's view)
 	one := func(allowUpdate bool) pb.ConfChangeSingle {
 		for {
 			id := uint64(1 + s.rng.Intn(s.n))
@@ -1291,19 +1293,21 @@ func (s *sim) randomV2(nd *simNode) pb.ConfChangeV2 {
 			case x < 45:
 				return pb.ConfChangeSingle{Type: pb.ConfChangeAddNode, NodeID: id}
 			case x < 62:
-				if voters[id] && (shrunk || len(voters) < 3) {
+				if voters[id] && shrunk >= maxShrink {
 					continue
 				}
 				if voters[id] {
-					shrunk = true
+					shrunk++
+					delete(voters, id)
 				}
 				return pb.ConfChangeSingle{Type: pb.ConfChangeAddLearnerNode, NodeID: id}
 			case x < 92:
-				if voters[id] && (shrunk || len(voters) < 3) {
+				if voters[id] && shrunk >= maxShrink {
 					continue
 				}
 				if voters[id] {
-					shrunk = true
+					shrunk++
+					delete(voters, id)
 				}
 				return pb.ConfChangeSingle{Type: pb.ConfChangeRemoveNode, NodeID: id}
 			default:
@@ -1678,6 +1682,9 @@ func runRaftsim(args []string) {
 			if p, ok := profileByName(*onlyP); ok {
 				prof = p
 			}
+		}
+		if prof.joint && *onlyN == 0 {
+			n = []int{5, 3, 5, 5, 3, 5, 4, 5}[k%8] // mostly clusters in which nodes can be added: 3 voters out of 4 or 5 nodes at the start
 		}
 		if prof.script {
 			n = 5
